@@ -14,6 +14,8 @@ use serde::{Deserialize, Serialize};
 use serde_json::json;
 use std::convert::TryFrom;
 
+pub const DECODERS_DUMMY: () = ();
+
 fn guard<R>(what: &str, input: impl FnOnce() -> String, f: impl FnOnce() -> R) -> Result<R, String> {
   no_panic(f).map_err(|p| format!("{what} panicked ({p}) on {}", input()))
 }
